@@ -336,6 +336,29 @@ func determChild(prop, tier string, idx, nh, nl int) int {
 				lastJudged = b.Round
 			}
 		}
+		if j%2 == 1 {
+			// a burst of calls on the probe contract's partition lists: adds past the partition size, updates and removals, a
+			// third of them failing after their writes. What a failed call wrote must not influence any later block, whichever
+			// caches the executing node happens to hold (the re-executions below start from a cold state cache).
+			for _, op := range ops {
+				if op.Name != "probe.parts" {
+					continue
+				}
+				for k := 0; k < 36; k++ {
+					if c := op.Build(h, r); c != nil {
+						h.Submit(c, nil)
+						run.Count("parts_burst_calls", 1)
+					}
+					if h.TxInBlk >= 1+r.Intn(3) {
+						h.EndBlock()
+						judge()
+					}
+				}
+				h.EndBlock()
+				judge()
+				break
+			}
+		}
 		for k := 0; k < nl; k++ {
 			op := ops[r.Pick(wts)]
 			c := op.Build(h, r)
